@@ -59,7 +59,7 @@ def _case(draw):
     if kind == "mgda2":
         dtype = draw(st.sampled_from(["float64", "float32"]))
         n = draw(st.integers(1, 6))
-        mode = draw(st.sampled_from(["grid", "gauss", "parallel", "antiparallel", "equal", "zero", "one-zero", "near"]))
+        mode = draw(st.sampled_from(["grid", "gauss", "parallel", "antiparallel", "equal", "zero", "one-zero", "near", "balanced"]))
         rng = np.random.default_rng(draw(SEEDS))
         if mode == "grid":
             J = np.array(draw(st.lists(st.integers(-4, 4), min_size=2 * n, max_size=2 * n)), float).reshape(2, n) / 2
@@ -77,12 +77,19 @@ def _case(draw):
                 J = np.zeros((2, n))
             elif mode == "one-zero":
                 J = np.stack([g, np.zeros(n)])
+            elif mode == "balanced":
+                # two rows of almost equal length: the optimum is within 1e-5 .. 1e-3 of the barycentre Frank-Wolfe starts
+                # from, so its single exact step is SMALL (below the default stopping threshold) - and still has to be taken
+                h = rng.standard_normal(n)
+                h = h / max(np.linalg.norm(h), 1e-300) * np.linalg.norm(g) * (1.0 + 10.0 ** rng.uniform(-5, -3))
+                J = np.stack([g, h])
             else:
                 J = np.stack([g, g + 10.0 ** rng.uniform(-3, -1) * rng.standard_normal(n)])
         J = J * 10.0 ** draw(st.integers(-3, 3))
         spec = {"name": "MGDA"}
         if draw(st.booleans()):
-            spec["epsilon"] = draw(st.sampled_from([0.0, 1e-3]))
+            # (any epsilon: the first step is exact for two rows, the stopping test only decides whether a second one is tried)
+            spec["epsilon"] = draw(st.sampled_from([0.0, 1e-3, 1e-3, 0.5, 1.0, 100.0]))
             spec["max_iters"] = draw(st.sampled_from([1, 2, 100]))
         return {"kind": "mgda", "J": J.tolist(), "dtype": dtype, "family": "two-rows:" + mode, "agg": spec}
     if kind == "random":
